@@ -211,8 +211,12 @@ def explain_redelivery(steps, pos):
       'both'      NACK and response for the same token
       'other'     anything else (e.g. the same mid delivered twice in a row)"""
     inp, outs = steps[pos]
-    if not inp.startswith("R:"):
-        return "both", "NACK for a token whose response was already handled"
+    if not inp.startswith("R:") or inp.startswith("R:rs"):
+        ntok = [int(o.split(":")[1]) for o in outs if o.startswith("nack:")]
+        prev = [o for j in range(pos) for o in steps[j][1]
+                if ntok and ((o.startswith("nack:") and int(o.split(":")[1]) == ntok[0]) or
+                             (o.startswith("resp:") and int(o.split(":")[3]) == ntok[0] and o.split(":")[1] != "1"))]
+        return "both", "NACK for token %s which had already concluded (%s)" % (ntok[:1], ",".join(prev[:2]))
     kind, mid, tok, _ = rx_fields(inp)
     first = None
     for j in range(pos):
